@@ -8,7 +8,7 @@ mkdir -p build
 LOG=build/allpass_$TIER.log; : > $LOG
 for p in $IDS; do
   s=$(date +%s)
-  ./check $p --tier $TIER > build/allpass_${TIER}_$p.out 2>&1; rc=$?
+  timeout ${ALLPASS_TIMEOUT:-7200} ./check $p --tier $TIER > build/allpass_${TIER}_$p.out 2>&1; rc=$?
   echo "$p rc=$rc secs=$(( $(date +%s) - s )) violations=$(grep -c '^VIOLATION' build/allpass_${TIER}_$p.out) known=$(grep -c '^KNOWN-FINDING' build/allpass_${TIER}_$p.out)" >> $LOG
 done
 echo DONE >> $LOG
